@@ -284,6 +284,8 @@ pub enum ReadPlan {
     Split(Vec<usize>),
     /// the json() helper
     Json,
+    /// text_reader() drained with the given buffer sizes (used by C02 with ASCII payloads)
+    TextReader(Vec<usize>),
 }
 
 pub fn read_size() -> BoxedStrategy<usize> {
@@ -311,6 +313,15 @@ pub fn read_plan() -> BoxedStrategy<ReadPlan> {
         1 => Just(ReadPlan::TextUtf8),
         1 => read_sizes().prop_map(ReadPlan::Split),
         1 => Just(ReadPlan::Json),
+    ]
+    .boxed()
+}
+
+/// `read_plan()` plus the streaming text reader (for checks whose payloads are made ASCII for that plan).
+pub fn read_plan_with_text_reader() -> BoxedStrategy<ReadPlan> {
+    prop_oneof![
+        10 => read_plan(),
+        2 => proptest::collection::vec(prop_oneof![Just(1usize), 2usize..64, Just(64usize), Just(200usize), Just(8192usize)], 1..4).prop_map(ReadPlan::TextReader),
     ]
     .boxed()
 }
